@@ -95,6 +95,7 @@ pub fn generate(check: &str, tier: &str, seed: u64, run: u64) -> Case {
             gen_sync(&mut rng, &pr)
         }
         "C09" if run % 10 == 7 => crate::gen::gen_chan_mp(&mut rng),
+        "C10" if run % 10 == 7 => crate::gen::gen_chan_mp(&mut rng),
         "C09" => {
             let pr = sync_profile(&mut rng, "chan");
             gen_sync(&mut rng, &pr)
